@@ -593,9 +593,9 @@ func genC14(g *Gen) {
 		}
 		return Ls(I(9), Ls(ix), Ls())
 	}
-	for i := 0; i < g.Scale(150, 3000); i++ {
+	for i := 0; i < g.Scale(150, 1200); i++ {
 		G := []int{2, 4, 8, 16}[g.R.Intn(4)]
-		R := 3 + g.R.Intn(g.Scale(25, 200))
+		R := 3 + g.R.Intn(g.Scale(25, 60))
 		var scripts VL
 		for k := 0; k < G; k++ {
 			var s VL
